@@ -14,7 +14,6 @@ var notApplicable = []struct{ ID, Reason string }{
 	{"C05", "pure function of (program, memory map); no schedule/clock/fault dimension"},
 	{"C06", "pure function of (blob, argument)"},
 	{"C07", "a single host call is a pure function of (registers, memory, context); the 'error code leaves state unchanged' clause is observed for CASH/FULL inside the accumulation-transaction simulation (C08/C09) but not claimed"},
-	{"C11", "per-value codec round trip is a pure function; the simulator could only generate values (codec runs for real inside the chain simulation as a by-product, unclaimed)"},
 	{"C12", "pure functions over integers / byte strings"},
 	{"C13", "a property of the decoder's acceptance set; input enumeration/fuzzing, nothing simulator-owned"},
 	{"C15", "pure function of the entry set (an independent reference trie is evaluated as a by-product in the C16 histories, unclaimed)"},
@@ -118,7 +117,7 @@ func writeManifest() error {
 		"engines":        engs,
 		"checks":         cs,
 		"not_applicable": nas,
-		"notes":          "Technique family: deterministic simulation with fault injection. One integer (VERIF_SEED) + run index seeds a choice tape that decides every generated operation, interleaving, clock advance and fault; violations are minimised tapes replayed in a fresh process before being reported. Exit 2 = infrastructure trouble, never a VIOLATION. /repo carries four 'fix:' commits for genuine C27 defects (see known_findings.json).",
+		"notes":          "Technique family: deterministic simulation with fault injection. One integer (VERIF_SEED) + run index seeds a choice tape that decides every generated operation, interleaving, clock advance and fault; violations are minimised tapes replayed in a fresh process before being reported. Exit 2 = infrastructure trouble, never a VIOLATION. /repo carries 'fix:' commits for the genuine defects the checks found (see known_findings.json and DESIGN.md §10).",
 	}
 	b, _ := json.MarshalIndent(m, "", " ")
 	return os.WriteFile(filepath.Join(verifDir, "MANIFEST.json"), append(b, '\n'), 0o644)
